@@ -8,14 +8,38 @@ Exit codes of ./check: 0 property held on everything explored (known findings ar
 import fcntl, hashlib, json, os, re, shutil, subprocess, sys, time
 
 VERIF = "/verif"
-REPO = "/repo"
+# The registered checks always run against /repo.  VERIF_REPO / VERIF_SCRATCH exist only so
+# that tools/seedrun.sh can try the checks on a scratch worktree of /repo (a seeded change)
+# without touching /repo: the harness crate is copied into the scratch directory with its
+# path dependency rewritten, and caches, work files, replays and evidence go there too.
+REPO = os.environ.get("VERIF_REPO", "/repo")
+SCRATCH = os.environ.get("VERIF_SCRATCH", "") if REPO != "/repo" else ""
 SPEC = VERIF + "/spec"
-HARNESS = VERIF + "/harness"
+HARNESS = (SCRATCH or VERIF) + "/harness"
 N2V = HARNESS + "/target/release/n2v"
-CACHE = VERIF + "/.cache"
-WORK = VERIF + "/work"
-REPLAYS = VERIF + "/replays"
-EVIDENCE = VERIF + "/evidence"
+CACHE = (SCRATCH or VERIF) + "/.cache"
+WORK = (SCRATCH or VERIF) + "/work"
+REPLAYS = (SCRATCH or VERIF) + "/replays"
+EVIDENCE = (SCRATCH or VERIF) + "/evidence"
+if REPO != "/repo" and not SCRATCH:
+    raise SystemExit("VERIF_REPO needs VERIF_SCRATCH")
+
+def prepare_scratch_harness():
+    """Copy of the harness crate that depends on the scratch worktree instead of /repo."""
+    src = VERIF + "/harness"
+    os.makedirs(HARNESS + "/src", exist_ok=True)
+    os.makedirs(HARNESS + "/.cargo", exist_ok=True)
+    for f in os.listdir(src + "/src"):
+        shutil.copy(src + "/src/" + f, HARNESS + "/src/" + f)
+    shutil.copy(src + "/.cargo/config.toml", HARNESS + "/.cargo/config.toml")
+    t = open(src + "/Cargo.toml").read().replace('path = "/repo"', 'path = "%s"' % REPO)
+    open(HARNESS + "/Cargo.toml", "w").write(t)
+    # model-checking results depend on the specification only: share them
+    os.makedirs(CACHE, exist_ok=True)
+    if os.path.isdir(VERIF + "/.cache"):
+        for f in os.listdir(VERIF + "/.cache"):
+            if f.startswith("mc-") and f.endswith(".json") and not os.path.exists(CACHE + "/" + f):
+                shutil.copy(VERIF + "/.cache/" + f, CACHE + "/" + f)
 ENGINE_VERSION = "1"
 
 class ToolError(Exception):
@@ -75,6 +99,8 @@ class Lock:
 def build_harness():
     """cargo build of the harness against /repo's current working tree (hooks on)."""
     with Lock("cargo"):
+        if SCRATCH:
+            prepare_scratch_harness()
         lock_src = os.path.join(REPO, "Cargo.lock")
         lock_dst = os.path.join(HARNESS, "Cargo.lock")
         if not os.path.exists(lock_dst):
